@@ -38,6 +38,14 @@ COMPOSITION = {
     "I2": {53: 2},
     "I-": {0: -1, 53: 1},
     "I3-": {0: -1, 53: 3},
+    "HF": {1: 1, 9: 1},
+    "F-": {0: -1, 9: 1},
+    "H3PO4": {1: 3, 15: 1, 8: 4},
+    "H2PO4-": {0: -1, 1: 2, 15: 1, 8: 4},
+    "HPO4-2": {0: -2, 1: 1, 15: 1, 8: 4},
+    "PO4-3": {0: -3, 15: 1, 8: 4},
+    "HSO4-": {0: -1, 1: 1, 16: 1, 8: 4},
+    "SO4-2": {0: -2, 16: 1, 8: 4},
 }
 
 # --------------------------------------------------------------------------------------------- reactions
@@ -55,6 +63,12 @@ POOL = [
     ("agnh3d", {"Ag(NH3)2+": 1}, {"Ag+": 1, "NH3": 2}, -7.2),
     # no cation at all: every entry of the charge row is <= 0
     ("i3", {"I2": 1, "I-": 1}, {"I3-": 1}, 2.87),
+    # further acid dissociations, so that systems with more than ten equilibria can be assembled
+    ("hf", {"HF": 1}, {"H+": 1, "F-": 1}, -3.17),
+    ("h3po4", {"H3PO4": 1}, {"H+": 1, "H2PO4-": 1}, -2.15),
+    ("h2po4", {"H2PO4-": 1}, {"H+": 1, "HPO4-2": 1}, -7.20),
+    ("hpo4", {"HPO4-2": 1}, {"H+": 1, "PO4-3": 1}, -12.35),
+    ("hso4", {"HSO4-": 1}, {"H+": 1, "SO4-2": 1}, -1.99),
 ]
 TAGS = [p[0] for p in POOL]
 
